@@ -14,9 +14,10 @@ import GqlModel.Schema.Model
   * `docOfSchema cfg s`: the same document without the fields the formatter hides (`__schema`, `__type`:
     `__`-name and no position, unless `WithBuiltin`).  The text is the same PROVIDED no printed
     definition loses ALL its fields (`NoAllHidden`): a definition with fields that are all hidden is
-    printed with an empty block `{` `}` — `scalar Query` is a loaded schema where this happens (the
-    loader appends the introspection fields to whatever type is the query root); see
-    `C13_schema_hidden_fields_counterexample`.
+    printed with an empty block `{` `}` — `scalar Query` USED TO BE a loaded schema where this happens
+    (the loader appended the introspection fields to whatever type was the query root; since the repair
+    of the root kinds the query root is an object type and `NoAllHidden` holds of every loaded schema,
+    `noAllHidden_of_loaded`); see `C13_schema_hidden_fields_rejected`.
 -/
 namespace Gql.Format
 open Gql
